@@ -256,3 +256,108 @@ func (x *Exec) declAwsFuns() {
 	x.declareFun("err_isaws", []string{sInt, sInt}, sBool)
 	x.declareFun("err_awscode", []string{sInt, sInt}, sStr)
 }
+
+// ---------------------------------------------------------------------------
+// Higher-order iterators of the mast dependency: m.DiffIter(ctx, old, f) and
+// m.DiffLinks(ctx, old, f) call f some number of times (unknown, possibly
+// zero) and return an arbitrary error. The effect on the state is therefore
+// "whatever f's contract allows, any number of times": the locations in f's
+// modifies clause (evaluated with the closure's captured variables and
+// arbitrary arguments) are havocked, under the caller's frame; nothing about
+// WHICH entries f is called for is assumed here — functions that need that
+// (every entry is visited exactly once) carry it as an ensures-assumed clause.
+func init() {
+	modelDocs["mast.(*Mast).DiffIter/DiffLinks"] = "the callback is invoked an unknown number of times with arbitrary arguments: locations its contract may modify are havocked; which entries are visited is NOT modelled (assumed per caller where needed)"
+	iter := func(x *Exec, s *State, in ssa.Instruction, a []Value, c *ssa.CallCommon) (Value, bool) {
+		f := a[len(a)-1]
+		rt := c.Signature().Results().At(0).Type()
+		if f.Fn == nil {
+			x.note("iterator callback is not a statically known closure: everything havocked")
+			s.havocAll()
+			return x.freshResult(s, rt), true
+		}
+		con := x.v.db.Funcs[f.Fn.Name]
+		if con == nil {
+			x.note("iterator callback without contract (everything havocked): " + f.Fn.Name)
+			x.v.unknownCalls.Store(f.Fn.Name, true)
+			s.havocAll()
+			return x.freshResult(s, rt), true
+		}
+		con.Used = true
+		fn := f.Fn.Fn.(*ssa.Function)
+		names := x.paramNames(fn, nil, f.Fn.Name)
+		args := append([]Value{}, f.Fn.Bindings...)
+		for _, p := range fn.Params {
+			v := x.freshValue("cbarg_"+p.Name(), p.Type())
+			s.assumeRanges(v)
+			args = append(args, v)
+		}
+		x.havocByContract(s, con, names, args, in, x.sites[in])
+		return x.freshResult(s, rt), x.failed == ""
+	}
+	models["github.com/jrhy/mast.(*Mast).DiffIter"] = iter
+	models["github.com/jrhy/mast.(*Mast).DiffLinks"] = iter
+	mk := func(x *Exec, s *State) []string { return []string{"*"} }
+	modelModKeys["github.com/jrhy/mast.(*Mast).DiffIter"] = mk
+	modelModKeys["github.com/jrhy/mast.(*Mast).DiffLinks"] = mk
+}
+
+// havocByContract applies only the frame of a contract: its modifies clause is
+// checked against the caller's frame and the locations are havocked.
+func (x *Exec) havocByContract(s *State, con *Contract, names []string, args []Value, in ssa.Instruction, site string) {
+	vars := map[string]Value{}
+	for i, n := range names {
+		if i < len(args) {
+			vars[n] = args[i]
+		}
+	}
+	env := &Env{x: x, s: s, hp: s.heap, old: s.heap, allocOld: s.alloc, vars: vars, pkg: x.v.typesPkg(con.Pkg)}
+	cm := &ModSet{}
+	ok := true
+	func() {
+		defer x.recoverSpec(con.Name, &ok)
+		for _, c := range con.Modifies {
+			if id, isID := c.Expr.(interface{ String() string }); isID && id.String() == "all" {
+				cm.all = true
+				continue
+			}
+			cm.items = append(cm.items, env.evalMod(c.Expr)...)
+		}
+	}()
+	if !ok {
+		return
+	}
+	if cm.all && !x.mods.all {
+		o := x.ob("frame", site, "callback "+con.Name+" may modify anything", in)
+		s.check(o, "false")
+	}
+	for _, it := range cm.items {
+		if strings.HasPrefix(it.key, "G:") || strings.HasPrefix(it.key, "GH:") || it.addr == "" {
+			if !x.mods.all && x.mods.allows(it.key, "") != "true" {
+				o := x.ob("frame", site+"#"+sanitize(it.key), "callback "+con.Name+" modifies "+it.key, in)
+				s.check(o, "false")
+			}
+			continue
+		}
+		x.frameCheck(s, it.key, it.addr, in)
+	}
+	allocOld := s.alloc
+	if cm.all {
+		s.havocAll()
+		return
+	}
+	for _, k := range cm.keys() {
+		k := k
+		if strings.HasPrefix(k, "G:") || strings.HasPrefix(k, "GH:") {
+			s.heap.m[k] = x.fresh("hv_"+k, x.heapSort(k))
+			continue
+		}
+		s.havocKey(k, func(addr string) string {
+			return and(app("<", addr, allocOld), not(cm.allows(k, addr)))
+		})
+	}
+	na := x.fresh("alloc", sInt)
+	s.assume(app("<=", s.alloc, na))
+	s.alloc = na
+	s.sealHavoc()
+}
